@@ -395,6 +395,14 @@ def run_shard(spec, seed, col, tier):
                         for sig, detail in call(name, data, col):
                             col.fail(sig, {'decoder': name, 'data': data.hex()}, detail)
                         n += 1
+        # a valid encoding repeated up to 4096 octets (short unit-test vectors; all of them in the thorough tier)
+        vecs = [v for v in vectors.vectors() if len(v) <= (12 if tier == 'quick' else 64)]
+        for name in names:
+            for v in vecs:
+                data = (v * (4096 // len(v) + 1))[:4096]
+                for sig, detail in call(name, data, col):
+                    col.fail(sig, {'decoder': name, 'data': data.hex()}, detail)
+                n += 1
         col.bulk(n, n, label='long-patterns', sample={'decoder': names[0], 'data': (FILLERS[3](64)).hex() + '...'})
     elif kind == 'towers':
         # a TLV nested inside itself as deep as 4000 octets allow (work must stay linear in the input): every registered
